@@ -164,6 +164,73 @@ func (s *DeleteStmt) Validate(ctx *CheckCtx) error {
 	return s.Where.Expr.Check(ctx)
 }
 
+// CheckFieldNameCycle reports a field that is defined by its own name,
+// directly or through the names of other fields. Such definition cannot be
+// evaluated, resolving the names would never finish.
+func (s *SelectStmt) CheckFieldNameCycle() error {
+	defs := make(map[string]Expression)
+	for i, name := range s.FieldNames {
+		if i >= len(s.Fields) {
+			break
+		}
+		if _, have := defs[name]; !have {
+			// Same as GetNamedExpr the first field with the name is used
+			defs[name] = s.Fields[i]
+		}
+	}
+	deps := make(map[string][]string)
+	for name, expr := range defs {
+		var cb WalkCallback
+		cb = func(e Expression) bool {
+			switch ne := e.(type) {
+			case *NameExpr:
+				if _, have := defs[ne.Data]; have {
+					deps[name] = append(deps[name], ne.Data)
+				}
+			case *FunctionCallExpr:
+				// The function name is not a field name
+				for _, arg := range ne.Args {
+					arg.Walk(cb)
+				}
+				return false
+			}
+			return true
+		}
+		expr.Walk(cb)
+	}
+	const (
+		visiting = 1
+		done     = 2
+	)
+	state := make(map[string]int)
+	var inCycle func(name string) bool
+	inCycle = func(name string) bool {
+		switch state[name] {
+		case visiting:
+			return true
+		case done:
+			return false
+		}
+		state[name] = visiting
+		for _, dep := range deps[name] {
+			if inCycle(dep) {
+				return true
+			}
+		}
+		state[name] = done
+		return false
+	}
+	for i, name := range s.FieldNames {
+		if i >= len(s.Fields) {
+			break
+		}
+		if inCycle(name) {
+			return NewSyntaxError(s.Fields[i].GetPos(), "Field %s is defined by itself", name)
+		}
+	}
+	return nil
+}
+
 func (s *SelectStmt) ValidateFields(ctx *CheckCtx) error {
 	for i, f := range s.Fields {
 		if err := s.validateField(f, ctx); err != nil {
